@@ -64,7 +64,11 @@ class _ContextLifter(DefaultTransformVisitor):
         for e in ctx_exprs:
             name = gensym.fresh('ctx')
             self.expr_to_name[e] = name
-            self.name_to_expr[name] = e
+            # The binding holds the context the expression evaluates to where it
+            # stands.  Re-emitting the expression itself at the top of the body
+            # would evaluate its arguments under the function's ambient context,
+            # whereas the header of a `with` evaluates them exactly.
+            self.name_to_expr[name] = ForeignVal(eval_info.by_expr[e], e.loc)
 
     def apply(self) -> FuncDef:
         return self._visit_function(self.func, None)
